@@ -7,4 +7,5 @@ mkdir -p .build evidence replay
 ( cd harness && go build -tags verif -o ../.build/vcheck ./cmd/vcheck )
 ( cd harness && go build -tags verif -race -o ../.build/vcheck-race ./cmd/vcheck )
 ( cd harness && go build -tags verif -race -o ../.build/firstuse-race ./cmd/firstuse )
+( cd harness && go build -tags verif -o ../.build/firstuse ./cmd/firstuse )
 echo "setup ok: $(go version)"
